@@ -166,6 +166,25 @@ fn respond(line: &str) -> Option<String> {
         ["lint", src] => Some(lint(&unx(src)?)),
         ["fold", src] => fold(&unx(src)?),
         ["walk", src, f] => walk_request(&unx(src)?, optional_index(f)?),
+        // (harness only) `run` with injected faults of another io::ErrorKind
+        ["runk", kind, src, stdin, w, r, _steps] => {
+            use std::io::ErrorKind::*;
+            let k = match *kind {
+                "w" => WouldBlock,
+                "b" => BrokenPipe,
+                "t" => TimedOut,
+                "p" => PermissionDenied,
+                "c" => ConnectionReset,
+                "u" => UnexpectedEof,
+                "d" => InvalidData,
+                "o" => Other,
+                _ => return None,
+            };
+            io::FAULT_KIND.with(|c| c.set(k));
+            let answer = run(&unx(src)?, unx_bytes(stdin)?, optional_index(w)?, optional_index(r)?);
+            io::FAULT_KIND.with(|c| c.set(Other));
+            Some(answer)
+        }
         // (harness only) one runner reused: K walks failing at W, then the walk that is reported
         ["walkseq", src, w, k, f] => {
             let (w, k, f) = (optional_index(w)?, k.parse().ok()?, optional_index(f)?);
